@@ -121,20 +121,21 @@ Definition rel_of (s : core) (a : Z) : Z := if time s <? a then a - time s else 
 Definition ns_of (call r : Z) : Z := if (call =? 0) || (call =? 2) then msec_of_rel r * 1000000 else r.
 
 Lemma SReq_of_abs : forall s call, J true s -> T1 s -> cur s = None -> HeapModel.batch (heap s) = [] ->
-  time_valid s = true ->
+  (AbsOf s <> None -> time_valid s = true) ->
   match AbsOf s with
   | Some a => SReq s call (ns_of call (rel_of s a)) (fun _ => False)
   | None => SReq s call (-1) (fun _ => False)
   end.
 Proof.
-  intros s call Jh T C B TV. destruct (J_SiTm _ _ Jh) as [HI _].
-  destruct (t1_stale _ T) as (ST1 & ST2 & ST3). specialize (ST3 TV).
-  unfold AbsOf. destruct (tasks s) as [|k0 tl] eqn:TK.
+  intros s call Jh T C B TV0. destruct (J_SiTm _ _ Jh) as [HI _].
+  destruct (t1_stale _ T) as (ST1 & ST2 & ST3).
+  unfold AbsOf in *. destruct (tasks s) as [|k0 tl] eqn:TK.
   - (* no task *)
     assert (NT : forall k, task_registered s k = true -> False).
     { intros k H. apply (task_reg_tasks s k C H). exact TK. }
     destruct (soonest_timeout s) as [a|] eqn:SO.
-    + constructor; [intros k _ H; destruct (NT k H)|].
+    + assert (TV : time_valid s = true) by (apply TV0; discriminate). specialize (ST3 TV).
+      constructor; [intros k _ H; destruct (NT k H)|].
       intros j JR TR. destruct (soonest_min s j HI B TR) as (a' & SO' & LE). rewrite SO in SO'. inversion SO'; subst a'.
       set (r := rel_of s a). assert (R0 : 0 <= r) by (unfold r, rel_of; destruct (Z.ltb_spec (time s) a); lia).
       assert (N0 : 0 <= ns_of call r) by (unfold ns_of; destruct ((call =? 0) || (call =? 2)); [pose proof (msec_nonneg r R0); lia|lia]).
@@ -147,6 +148,7 @@ Proof.
     + constructor; [intros k _ H; destruct (NT k H)|].
       intros j JR TR. destruct (soonest_min s j HI B TR) as (a' & SO' & _). congruence.
   - (* a task is registered: zero timeout *)
+    assert (TV : time_valid s = true) by (apply TV0; discriminate). specialize (ST3 TV).
     assert (RZ : rel_of s 0 = 0) by (unfold rel_of; destruct (Z.ltb_spec (time s) 0); [lia|reflexivity]).
     assert (NZ : ns_of call (rel_of s 0) = 0) by (rewrite RZ; unfold ns_of; destruct ((call =? 0) || (call =? 2)); reflexivity).
     rewrite NZ. constructor.
@@ -241,4 +243,21 @@ Lemma SReq_WFr : forall s s' call timeout A, SReq s call timeout A -> WFr s s' -
 Proof.
   intros s s' call timeout A R [] . apply (SReq_keep s s' call timeout A R); try assumption.
   intros k. unfold task_registered. rewrite wf_tasks0, wf_cur0. reflexivity.
+Qed.
+
+Lemma SReq_weaken : forall s call timeout (A A' : Z -> Prop), (forall D, A D -> A' D) ->
+  SReq s call timeout A -> SReq s call timeout A'.
+Proof.
+  intros s call timeout A A' H [RT RM]. constructor.
+  - intros k K R. destruct (RT k K R) as (D & [X|X] & L); exists D; (split; [|exact L]); [left; exact X|right; apply H; exact X].
+  - intros j JR R. destruct (RM j JR R) as (D & [X|X] & L); exists D; (split; [|exact L]); [left; exact X|right; apply H; exact X].
+Qed.
+
+Lemma SReq_F0 : forall s s' call timeout A, SReq s call timeout A -> F0 s s' -> SReq s' call timeout A.
+Proof.
+  intros s s' call timeout A R [L X]. destruct (lf_fields _ _ L) as (E1 & E2 & E3 & E4 & E5 & E6 & E7 & E8).
+  destruct (silent_ghost _ _ (TrX_silent _ _ X)) as (G1' & _).
+  apply (SReq_keep s s' call timeout A R); try assumption; try lia.
+  - intros k. unfold task_registered. rewrite E4, E5. reflexivity.
+  - intros H. rewrite G1' in H. split; [exact H|exact E8].
 Qed.
